@@ -1,4 +1,4 @@
-import TbotVerif.Model.ChanRun
+import TbotVerif.Spec.Chan
 /-! Line-protocol driver: one request per line on stdin, one answer per line on stdout.
     Anything malformed is answered with `bad-op` — never with a default. -/
 
@@ -28,6 +28,17 @@ def handle (line : String) : String :=
     match Wire.case rest with
     | some c => Wire.obs (Chan.run c)
     | none => "bad-op"
+  | "spec" :: id :: rest =>
+    let (ct, ot) := splitAt2 rest "||"
+    match Wire.case ct, Wire.obsOf ot with
+    | some c, some o =>
+      let f : Option (Case → List OpObs × Bytes → Bool) := match id with
+        | "C02" => some Spec.C02 | "C03" => some Spec.C03 | "C04" => some Spec.C04
+        | _ => none
+      match f with
+      | some f => if f c o then "1" else "0"
+      | none => "bad-op"
+    | _, _ => "bad-op"
   | _ => "bad-op"
 
 partial def loop (hin hout : IO.FS.Stream) : IO Unit := do
